@@ -4,23 +4,6 @@
 # usage: seed_matrix.sh [parallel jobs]
 J=${1:-4}
 mkdir -p /tmp/seedrun
-run_one() {
-  d="$1"; name=$(basename "$d"); pid=${name%%-*}
-  wt=/tmp/seedrun/$name
-  rm -rf "$wt"; git -C /repo worktree prune
-  git -C /repo worktree add -q --detach "$wt" HEAD || { echo "$name WORKTREE-FAILED"; return; }
-  if ! git -C "$wt" apply "$d/patch.diff" 2>/dev/null; then
-    echo "$name patch-does-not-apply-to-current-HEAD" | tee "$d/detection.txt"
-  else
-    out=$(cd /verif && GOTRANX_REPO="$wt" ./check "$pid" --tier quick 2>&1)
-    nv=$(echo "$out" | grep -c '^VIOLATION')
-    nf=$(echo "$out" | grep '^VIOLATION' | grep -vc 'no-failing-input-found')
-    first=$(echo "$out" | grep -A1 '^VIOLATION' | sed -n 2p | cut -c1-220)
-    echo "$name check=$pid violations=$nv with_failing_input=$nf :: $first" | tee "$d/detection.txt"
-  fi
-  git -C /repo worktree remove --force "$wt"
-}
-export -f run_one 2>/dev/null
 for d in /verif/seeded/*/; do echo "$d"; done | xargs -P "$J" -I{} sh -c '
 d="{}"; d=${d%/}; name=$(basename "$d"); pid=${name%%-*}; wt=/tmp/seedrun/$name
 rm -rf "$wt"; git -C /repo worktree prune 2>/dev/null
